@@ -143,6 +143,31 @@ fn cases() -> Vec<Case> {
             }
         }
     }
+    // the same predicates written as list members (the loader has a separate copy of every
+    // numeric block for lists): one-member lists and a list with an unsatisfiable second member
+    for key in ["f", "flt(f)", "all(f)", "of(f, 1)"] {
+        for (p, _) in ops {
+            for c in ["0", "1", "9223372036854775807", "-1"] {
+                out.push(Case {
+                    form: format!("{}:['{}int']", key, p),
+                    yaml: rule(&format!("{{\"{}\": [\"{}{}\"]}}", key, p, c), "A"),
+                    two_fields: false,
+                });
+            }
+            for c in ["0.0", "0.5", "1.5", "-1.5", "1.0e300"] {
+                out.push(Case {
+                    form: format!("{}:['{}float']", key, p),
+                    yaml: rule(&format!("{{\"{}\": [\"{}{}\"]}}", key, p, c), "A"),
+                    two_fields: false,
+                });
+                out.push(Case {
+                    form: format!("{}:['{}float','=nan-like']", key, p),
+                    yaml: rule(&format!("{{\"{}\": [\"{}{}\", \"=123456.5\"]}}", key, p, c), "A"),
+                    two_fields: false,
+                });
+            }
+        }
+    }
     // integer constants outside the i64 range: rejected at load today; if one ever loads it must
     // be judged by exact arithmetic, not clamped or wrapped
     for key in ["f", "int(f)", "not(f)"] {
